@@ -31,7 +31,7 @@ PROPS = {
         "jobs": [
             {"scen": "tunnel", "sets": {"mode": "clean"}, "quick": 1500, "thorough": 50000},
             {"scen": "tunnel", "sets": {"mode": "faulty"}, "quick": 1500, "thorough": 50000},
-            {"scen": "tunnel", "sets": {"mode": "redeliver"}, "quick": 800, "thorough": 30000},
+            {"scen": "tunnel", "sets": {"mode": "redeliver", "retype": True}, "quick": 800, "thorough": 30000},
             {"scen": "forward", "sets": {}, "quick": 1500, "thorough": 50000},
             {"scen": "probe", "sets": {}, "quick": 600, "thorough": 30000},
         ],
@@ -45,7 +45,7 @@ PROPS = {
             {"scen": "tunnel", "sets": {"mode": "clean"}, "quick": 1500, "thorough": 50000},
             {"scen": "tunnel", "sets": {"mode": "faulty"}, "quick": 1500, "thorough": 50000},
             {"scen": "sessions", "sets": {}, "quick": 800, "thorough": 40000},
-            {"scen": "tunnel", "sets": {"mode": "redeliver"}, "quick": 800, "thorough": 40000},
+            {"scen": "tunnel", "sets": {"mode": "redeliver", "retype": True}, "quick": 800, "thorough": 40000},
         ],
         "expect_probes": ["c14.answers", "c14.held2", "srv.both_slots_held", "srv.id2_remembered"],
     },
